@@ -26,8 +26,10 @@ package main
 //
 // Typed numeric slices of other element types ([]int32, []byte, []float32) take part
 // in every operation; a store converts as Go would when the element type can hold the
-// value (a wrapping integer store, a string read as a byte / rune and []byte / []rune
-// read as a string are kept out). `in` on a typed numeric slice: two numbers of
+// value ([]byte / []rune read as a string are kept out; an integer the element type holds
+// only wrapped and a string offered to a byte / rune slot: c10_r6.go, which also drives
+// every slot kind with the values at the ends of its range through every way of storing).
+// `in` on a typed numeric slice: two numbers of
 // different Go types are unequal as Go interface values and equal for the script's ==
 // when they denote the same number - not judged; a needle that denotes a number no
 // element denotes (1.5 against int64 1, 257 against byte 1) is not `in`.
@@ -44,6 +46,8 @@ package main
 // literal that is called repeatedly, a literal in a loop body): c10_lit.go.
 // Assignment statements with a nested (parenthesised) target executed more than once from
 // one syntax tree, and struct values held by elements of untyped lists / maps: c10_r5.go.
+// Unsigned / byte-typed containers, the conversion matrix (phase "conv"), p[i] = p[i] and
+// `+` with a map on the left: c10_r6.go.
 
 import (
 	"fmt"
@@ -257,24 +261,19 @@ func c10Conv(v interface{}, t reflect.Type) (out reflect.Value, st int, fresh bo
 	case c10IsNumKind(sk) && c10IsNumKind(tk):
 		switch {
 		case c10IsFloatKind(sk) && !c10IsFloatKind(tk):
-			f := rv.Float()
-			if math.IsNaN(f) || math.Abs(f) >= 1<<62 {
-				return out, c10CvExcl, false // out-of-range float->int is implementation-defined in Go
-			}
-			if lo, hi := c10IntRange(t); math.Trunc(f) < lo || math.Trunc(f) > hi {
+			// Go truncates towards zero; the conversion is specified exactly when the integer
+			// type can represent the truncated value (uint64(1e19) is 10000000000000000000)
+			// and implementation-defined beyond (not generated)
+			iv, ok := c10FloatToInt(rv.Float(), t)
+			if !ok {
 				return out, c10CvExcl, false
 			}
+			return iv, c10CvOK, false
 		case !c10IsFloatKind(sk) && !c10IsFloatKind(tk):
-			// an integer the narrower type cannot represent: Go wraps a non-constant and
-			// rejects a constant; which of the two the statement means is not said
-			var f float64
-			if c10IsUintKind(sk) {
-				f = float64(rv.Uint())
-			} else {
-				f = float64(rv.Int())
-			}
-			if lo, hi := c10IntRange(t); f < lo || f > hi {
-				return out, c10CvExcl, false
+			// an integer the other integer type cannot represent: Go wraps a non-constant and
+			// rejects a constant. Accepted: the wrapped value, or an error that changes nothing
+			if !c10IntFits(rv, t) {
+				return rv.Convert(t), c10CvEither, false
 			}
 		case c10IsFloatKind(sk) && tk == reflect.Float32:
 			if math.Abs(rv.Float()) > math.MaxFloat32 {
@@ -285,7 +284,7 @@ func c10Conv(v interface{}, t reflect.Type) (out reflect.Value, st int, fresh bo
 	case (c10IsNumKind(sk) && !c10IsFloatKind(sk)) && tk == reflect.String:
 		return out, c10CvExcl, false // Go: string(rune(i)); the statement hardly means that
 	case sk == reflect.String && (tk == reflect.Uint8 || tk == reflect.Int32):
-		return out, c10CvExcl, false // the script reads a one-character string as a byte / rune; Go has no such conversion
+		return c10StrToChar(rv.String(), t) // c10_r6.go
 	case tk == reflect.String && c10IsRunesOrBytes(v):
 		return out, c10CvExcl, false // Go: string([]byte) / string([]rune)
 	case sk == reflect.Slice && tk == reflect.Slice:
@@ -330,20 +329,50 @@ func c10IsNumKind(k reflect.Kind) bool {
 	return c10IsUintKind(k) || c10IsFloatKind(k)
 }
 
-// c10IntRange: the values an integer type holds (64-bit types: clipped to +-2^62,
-// float64 cannot spell their ends).
-func c10IntRange(t reflect.Type) (lo, hi float64) {
-	b := t.Bits()
-	if b >= 64 {
+// c10IntFits: integer value v (any integer kind) is representable in integer type t.
+func c10IntFits(v reflect.Value, t reflect.Type) bool {
+	b := uint(t.Bits())
+	if c10IsUintKind(v.Kind()) {
+		u := v.Uint()
 		if c10IsUintKind(t.Kind()) {
-			return 0, 1 << 62
+			return b >= 64 || u < uint64(1)<<b
 		}
-		return -(1 << 62), 1 << 62
+		return u < uint64(1)<<(b-1)
 	}
+	i := v.Int()
 	if c10IsUintKind(t.Kind()) {
-		return 0, float64(uint64(1)<<uint(b)) - 1
+		return i >= 0 && (b >= 64 || uint64(i) < uint64(1)<<b)
 	}
-	return -float64(uint64(1) << uint(b-1)), float64(uint64(1)<<uint(b-1)) - 1
+	return b >= 64 || (i >= -(int64(1)<<(b-1)) && i < int64(1)<<(b-1))
+}
+
+// c10FloatToInt: Go's conversion of a non-constant float to integer type t, computed here
+// without the help of a float->integer conversion near the ends of the range: ok is false
+// when t cannot represent the truncated value (NaN, infinities, beyond the range: the
+// result of Go's conversion is implementation-defined then).
+func c10FloatToInt(f float64, t reflect.Type) (reflect.Value, bool) {
+	if math.IsNaN(f) || math.IsInf(f, 0) {
+		return reflect.Value{}, false
+	}
+	tr := math.Trunc(f)
+	b := t.Bits()
+	out := reflect.New(t).Elem()
+	if c10IsUintKind(t.Kind()) {
+		if tr < 0 || tr >= math.Ldexp(1, b) {
+			return reflect.Value{}, false
+		}
+		if tr >= 1<<63 {
+			out.SetUint(uint64(tr-(1<<63)) + 1<<63) // tr - 2^63 is exact and below 2^63
+		} else {
+			out.SetUint(uint64(int64(tr)))
+		}
+		return out, true
+	}
+	if tr < -math.Ldexp(1, b-1) || tr >= math.Ldexp(1, b-1) {
+		return reflect.Value{}, false
+	}
+	out.SetInt(int64(tr))
+	return out, true
 }
 
 // ---- parallel walk of live object and model ----
@@ -557,6 +586,7 @@ type c10Hist struct {
 
 func newC10Hist(c *wk.Case) *c10Hist {
 	h := &c10Hist{c: c, env: ank.NewCoreEnv(), vars: map[string]*c10Var{}}
+	c10R6Bind(h.env) // host-typed numbers and the type names int8 / int16 / uint16 (c10_r6.go)
 	o := ank.Exec(h.env, c10Prelude)
 	if o.Err != nil || o.Panicked {
 		c.Inconclusive("prelude-failed", ank.ErrText(o.Err)+o.PanicVal, c10Prelude)
@@ -681,6 +711,7 @@ type c10Op struct {
 	src     string
 	opk     string // operation kind (signature part)
 	ck      string // container kind (signature part)
+	sigck   string // replaces ck in the signature when set (phase conv: slot kind <- value kind)
 	pk      string // place kind (tag only)
 	wantErr bool
 	why     string // class of the demanded error
@@ -698,9 +729,13 @@ func (h *c10Hist) input(op *c10Op) map[string]interface{} {
 }
 
 func (h *c10Hist) viol(op *c10Op, class, detail string) {
-	sig := op.opk + ":" + op.ck + ":" + class
+	ck := op.ck
+	if op.sigck != "" {
+		ck = op.sigck
+	}
+	sig := op.opk + ":" + ck + ":" + class
 	if class == "error-but-mutated" {
-		sig = "error-but-mutated:" + op.opk + ":" + op.ck
+		sig = "error-but-mutated:" + op.opk + ":" + ck
 	}
 	h.c.Violation(sig, "op `"+op.src+"`: "+detail, h.input(op))
 	h.dead = true
@@ -1025,8 +1060,8 @@ func (h *c10Hist) opWrite(p c10Place, ix c10Idx, v c10Val, viaCall bool) *c10Op 
 		op.commit = func(reflect.Value) { h.mset(p, reflect.ValueOf(nv)) }
 		return op
 	case reflect.Slice:
-		cv, st, _ := c10Conv(v.v, cont.Type().Elem())
-		if st == c10CvExcl || st == c10CvEither {
+		cv, st, fresh := c10Conv(v.v, cont.Type().Elem())
+		if st == c10CvExcl || (st == c10CvEither && fresh) {
 			return nil
 		}
 		if st == c10CvErr {
@@ -1039,6 +1074,9 @@ func (h *c10Hist) opWrite(p c10Place, ix c10Idx, v c10Val, viaCall bool) *c10Op 
 			return op
 		}
 		op.mut = true
+		if st == c10CvEither {
+			op.either, op.why = true, c10WhyLossy // a wrapping integer / a string read as a character: the value, or an error
+		}
 		if !atLen {
 			op.commit = func(reflect.Value) { cont.Index(int(ix.n)).Set(cv) }
 			return op
@@ -1063,6 +1101,9 @@ func (h *c10Hist) opWrite(p c10Place, ix c10Idx, v c10Val, viaCall bool) *c10Op 
 			// by a list / map element cannot be assigned (Go rejects the assignment). Accepted like
 			// the slice-expression target: an error leaving everything unchanged - also the spare
 			// capacity a longer slice shares - or what Go's `_ = append(a[0].C, v)` does
+			if c10PendingFix_AppendOntoOwnElement && c10SpareIsOwnElement(h.mget(c10P(p.root)), p, cont) {
+				return nil // the appended value would land on the element that holds the struct (c10_r6.go)
+			}
 			op.either, op.why = true, "append-through-unassignable-field"
 			op.commit = func(reflect.Value) {
 				if cont.Len() < cont.Cap() {
@@ -1163,11 +1204,17 @@ func (h *c10Hist) opAppend(form, dst string, p c10Place, rhs c10Val) *c10Op {
 	}
 	items := make([]reflect.Value, len(raw))
 	firstBad := -1
+	lossy := false
 	for i, x := range raw {
-		cv, st, _ := c10Conv(x, cont.Type().Elem())
+		cv, st, fresh := c10Conv(x, cont.Type().Elem())
 		switch st {
-		case c10CvExcl, c10CvEither:
+		case c10CvExcl:
 			return nil
+		case c10CvEither:
+			if fresh {
+				return nil
+			}
+			lossy = true
 		case c10CvErr:
 			op.wantErr, op.why = true, "unconvertible-value"
 			if firstBad < 0 {
@@ -1201,6 +1248,9 @@ func (h *c10Hist) opAppend(form, dst string, p c10Place, rhs c10Val) *c10Op {
 		return op
 	}
 	op.mut = true
+	if lossy {
+		op.either, op.why = true, c10WhyLossy
+	}
 	var result reflect.Value
 	op.commit = func(res reflect.Value) {
 		live := res
@@ -1381,8 +1431,11 @@ func c10NumEqClass(a, b reflect.Value) int {
 	case !af && !bf:
 		an, am := mag(a)
 		bn, bm := mag(b)
-		if am >= 1<<62 || bm >= 1<<62 {
-			return -1 // how a 64-bit unsigned and a negative number compare is C06's business
+		if (am >= 1<<62 || bm >= 1<<62) && c10PendingFix_InUnsignedWraps {
+			// how a 64-bit unsigned and a negative number compare is C06's relation; but -1 and
+			// 18446744073709551615 are two numbers under every reading, and `-1 in a` answers true
+			// today (C10-r6-genuine.md): judged like every other pair once that is repaired
+			return -1
 		}
 		if an == bn && am == bm {
 			return -1
@@ -1504,6 +1557,12 @@ func c10Key(k c10Val, kt reflect.Type, forRead bool) (kv reflect.Value, st int, 
 		return cv, c10CvOK, ""
 	case c10CvErr:
 		return cv, c10CvErr, "unconvertible-key"
+	case c10CvEither:
+		// a key the key type holds only wrapped / read as a character: stores only, the
+		// converted key or an error (the statement speaks of conversion for stores only)
+		if !forRead && cv.IsValid() && cv.Type() == kt {
+			return cv, c10CvEither, ""
+		}
 	}
 	return cv, c10CvExcl, ""
 }
@@ -1601,8 +1660,8 @@ func (h *c10Hist) opMapWrite(p c10Place, k, v c10Val, member, viaCall bool) *c10
 		return nil
 	}
 	op.itag = "key:" + k.tag
-	cv, vst, _ := c10Conv(v.v, cont.Type().Elem())
-	if vst == c10CvExcl || vst == c10CvEither {
+	cv, vst, vfresh := c10Conv(v.v, cont.Type().Elem())
+	if vst == c10CvExcl || (vst == c10CvEither && vfresh) {
 		return nil
 	}
 	if vst == c10CvErr {
@@ -1615,6 +1674,9 @@ func (h *c10Hist) opMapWrite(p c10Place, k, v c10Val, member, viaCall bool) *c10
 		return op
 	}
 	op.mut = true
+	if st == c10CvEither || vst == c10CvEither {
+		op.either, op.why = true, c10WhyLossy
+	}
 	if cont.IsNil() && p.sf != "" {
 		return nil // the new map would have to be assigned to an unassignable field: kept out
 	}
@@ -1718,6 +1780,9 @@ func (h *c10Hist) opFieldWrite(root, f string, v c10Val) *c10Op {
 		return op
 	case c10CvEither:
 		op.either, op.why = true, "slice-to-slice-conversion"
+		if !fresh {
+			op.why = c10WhyLossy
+		}
 	}
 	op.mut = true
 	fp := c10Place{root: root, sel: 'f', f: f}
@@ -1869,6 +1934,9 @@ func (g *c10Gen) valFor(t reflect.Type) c10Val {
 	if g.rn(100) < 28 {
 		return g.anyVal()
 	}
+	if v, ok := g.r6Val(t); ok {
+		return v // the ends of the numeric ranges, strings for byte / rune slots (c10_r6.go)
+	}
 	switch t {
 	case c10I64T:
 		if g.rn(3) == 0 {
@@ -1951,6 +2019,9 @@ func (g *c10Gen) valFor(t reflect.Type) c10Val {
 // number plus or minus 2^8 / 2^16 / 2^32 - what a conversion to the element type
 // would truncate or wrap back onto the element.
 func (g *c10Gen) needle(cont reflect.Value) c10Val {
+	if v, ok := c10NeedleWrap(cont, g.rn(8)); ok && g.rn(3) == 0 {
+		return v
+	}
 	base := float64(g.rn(4))
 	if cont.Len() > 0 {
 		e := cont.Index(g.rn(cont.Len()))
@@ -2127,6 +2198,9 @@ var c10KeyStrs = []string{"k1", "k2", "k3", "x y", "", "zz"}
 
 // key draws from the key universe; existing keys are favoured.
 func (g *c10Gen) key(cont reflect.Value) c10Val {
+	if v, ok := g.r6Key(cont); ok {
+		return v
+	}
 	r := g.rn(100)
 	if r < 35 && cont.Len() > 0 {
 		ks := cont.MapKeys()
@@ -2336,7 +2410,7 @@ func (g *c10Gen) initVal(name string) c10Val {
 		}
 		return c10Val{`map[string]float64{"k1": 1.5}`, map[string]float64{"k1": 1.5}, "tmap-lit"}
 	}
-	return c10Val{}
+	return g.r6InitVal(name)
 }
 
 // dest picks a variable of the profile that may receive a value of type t.
@@ -2351,6 +2425,12 @@ func (g *c10Gen) op() *c10Op {
 	if g.rn(100) < 14 {
 		// statements executed more than once, struct values inside lists / maps (c10_r5.go)
 		if op := g.r5Op(); op != nil {
+			return op
+		}
+	}
+	if g.rn(100) < 4 {
+		// p[i] = p[i]; `+` with a map on the left (c10_r6.go)
+		if op := g.r6Op(); op != nil {
 			return op
 		}
 	}
@@ -3239,12 +3319,15 @@ func init() {
 			}
 			return fw.Plan{
 				Level: "exploration",
-				Rule:  "one evaluation = one history: a fresh environment, 3-8 container variables (one of 12 profiles) and 10-40 operations, each its own vm.Execute call; after every operation every variable is fetched with env.Get and walked against a native Go model (types, contents, len, cap, storage sharing through a live<->model element-address bijection); containers include typed numeric slices of five element types, nil typed maps / nil typed slices (zero elements of make([]map..) / make([][]T..), names and struct fields bound to nil) and slice expressions as the left operand of a store; struct values of five shapes side by side (the same field names at other positions, a two-field shape, anonymous Go structs bound by the host through a pointer; fields of other shapes are unknown fields); in 40% of the histories with an untyped slice 1-2 script functions returning a random nested literal (lists, maps, typed literals, depth <= 3) are defined once and called again and again, and loops evaluate a literal in their body 2-4 times with in-place stores (`=`, `+= 1`) into inner containers - the Go model builds fresh storage for every evaluation of a literal; about 5% of the operations execute ONE assignment statement with a nested target once more with other operands ((x[i])[j] = v, x[i][j] = v, (x[i]).k1 = v, (x[i])[j] += 1, (x[i])[j]++, with and without parentheses around the container): ten script functions of the prelude that every history calls again and again on the elements of its lists of lists / maps / strings, and loops of 2-4 passes over one such statement (four spellings) - the k-th execution stores into the container its operands designate at the k-th execution; struct values are put into untyped lists and maps (`a[i] = c10mkS(ts[i:j], e)`: the slice field shares storage, and often spare capacity, with a variable) and their slice / map fields are containers for every operation; an operation the Go model rejects must report an error and leave every container unchanged. A history is non-trivial when >=3 operations ran and >=1 mutated a container; distinct = distinct operation text.",
+				Rule:  "one evaluation = one history: a fresh environment, 3-8 container variables (one of 14 profiles) and 10-40 operations, each its own vm.Execute call; after every operation every variable is fetched with env.Get and walked against a native Go model (types, contents, len, cap, storage sharing through a live<->model element-address bijection); containers include typed numeric slices of eight element types (int64, float64, int32, byte, float32, uint64, uint, uint32), maps with byte / uint64 keys and uint64 values, a struct with a field of every numeric kind the script can name, nil typed maps / nil typed slices (zero elements of make([]map..) / make([][]T..), names and struct fields bound to nil) and slice expressions as the left operand of a store; struct values of five shapes side by side (the same field names at other positions, a two-field shape, anonymous Go structs bound by the host through a pointer; fields of other shapes are unknown fields); in 40% of the histories with an untyped slice 1-2 script functions returning a random nested literal (lists, maps, typed literals, depth <= 3) are defined once and called again and again, and loops evaluate a literal in their body 2-4 times with in-place stores (`=`, `+= 1`) into inner containers - the Go model builds fresh storage for every evaluation of a literal; about 5% of the operations execute ONE assignment statement with a nested target once more with other operands ((x[i])[j] = v, x[i][j] = v, (x[i]).k1 = v, (x[i])[j] += 1, (x[i])[j]++, with and without parentheses around the container): ten script functions of the prelude that every history calls again and again on the elements of its lists of lists / maps / strings, and loops of 2-4 passes over one such statement (four spellings) - the k-th execution stores into the container its operands designate at the k-th execution; struct values are put into untyped lists and maps (`a[i] = c10mkS(ts[i:j], e)`: the slice field shares storage, and often spare capacity, with a variable) and their slice / map fields are containers for every operation; an operation the Go model rejects must report an error and leave every container unchanged. Values stored into a numeric slot are drawn in 30-75% of the draws from the ends of the kinds' ranges (2^7..2^64 +- a little as integers and floats, floats in [2^63, 2^64), negative fractions, host-typed numbers no literal spells such as uint64 above MaxInt64 and MinInt64), byte / rune slots also get strings (ASCII, empty, several characters, one character of 2-3 bytes, single bytes >= 0x80 cut out of a string with s[i:i+1]); 4% of the operations are `p[i] = p[i]` (an in-range index changes nothing) or `+` / `+=` with a map as the left operand (an error). Phase conv is the full matrix: 14 slot kinds (uint64, uint, uint32, uint16, byte, int64, int, rune, int16, int8, float64, float32, string, bool) x 5 groups of values (28 integers, 42 floats, 19 strings, 10 host-typed numbers, 7 values of other kinds) x 13 ways of storing (index store plain / through a call / through a slice expression / below an untyped list and through the shared nested-target statements, store at index len with and without spare capacity, `+=`, `= +`, `+ [v, v]`, append as an expression and through a call, map value by index / member / call, map key, struct field, slice in a struct field, typed slice and map literals with the value as element, value and key), each on fresh containers followed by a read-back; the signature names slot kind and value kind. A history is non-trivial when >=3 operations ran and >=1 mutated a container; distinct = distinct operation text.",
 				Assumptions: []string{
 					"Go's own slice/map/string operations (through reflect) are the reference; capacity after a growing append is adopted from the live object",
 					"numeric-string indices only as decimal numerals with a leading zero (accepted: error, or what the integer does); not generated: float/bool indices, reslice high bound in (len,cap], struct value copies, `in` on maps/strings, multi-byte string-position stores, int->string and nil->typed-slot stores",
 					"accepted both ways: []interface{} / []float64 stored into a []int64 field (element-wise copy or error); missing key of a typed map reads nil or the zero value; a key a typed map cannot hold reads nil or errors; a store of a convertible value into a NIL typed map (error leaving everything unchanged, or a new map with the converted value bound to the place)",
-					"typed numeric slices []int32 / []byte / []float32: stores only of values the element type can hold (wrapping integer stores, string->byte/rune, []byte/[]rune->string not generated); `in` with a numeric needle of another Go type than the elements is judged only when the needle denotes a number that no element denotes (then it must be false); nil against a nil typed slice/map element is not judged",
+					"typed slots: a number converts as Go's T(v) of a non-constant does - a float is truncated towards zero and must arrive exactly when the slot type can represent the truncated value (uint64(1e19), uint64(-0.5) = 0, int64(-2^63)); not generated: a float beyond the slot's range, NaN, a float64 beyond float32 (Go: implementation-defined), []byte/[]rune->string; an INTEGER the slot type cannot represent: the wrapped value (Go, non-constant) or an error that changes nothing (Go, constant) - nothing else",
+					"a string offered to a byte / rune slot (Go has no such conversion; the library documents reading a one-character string as that character; the statement is silent): always accepted is an error that changes nothing; the only success accepted is the lossless one - a one-byte string is exactly that byte (whatever the byte: \"é\"[0:1] is 0xC3), one well-formed character of several bytes is that character if the slot can hold it (U+00E9 in a byte, any in a rune), the empty string is zero; a character above U+00FF into a byte slot and a string of several characters must fail; not generated: a single byte >= 0x80 into a rune slot (0xC3 and U+FFFD both defensible); converting map keys only on stores",
+					"kept out until /repo is repaired (C10-r6-genuine.md): `in` between a negative needle and unsigned 64-bit elements above MaxInt64 (c10PendingFix_InUnsignedWraps), s[i] = s[i] on a byte >= 0x80 of a string (c10PendingFix_StringHighByteRoundTrip), `+` / `+=` between two maps (c10PendingFix_MapPlusMap; map + list is generated and must fail), a store at index len through the field of a struct element whose first spare slot is the list element holding that struct (c10PendingFix_AppendOntoOwnElement; fixed history c10FixedAppendOwnSlot holds the map form for after the repair)",
+					"`in` with a numeric needle of another Go type than the elements is judged only when the needle denotes a number that no element denotes (then it must be false); nil against a nil typed slice/map element is not judged",
 					"a store at index len through the field of a struct VALUE held by a list / map element (`a[0].C[len] = v`; Go cannot assign that field) is accepted as an error that leaves every container unchanged - including the spare capacity a longer slice shares - or as Go's `_ = append(a[0].C, v)`; not generated through such a field: `+=` / `= +` (append expression and failing assignment pull in different directions), stores into a string field, stores into a nil map field; struct values in TYPED maps and Go array values handed in by the host are not generated",
 					"statement loops hold only passes that succeed in the Go model (in-range stores, map entries, appends within the capacity; `+= 1` / `++` only on int64 elements that exist); failing and growing stores through a shared statement run one call per operation",
 					"a literal expression is Go's composite literal: every evaluation yields fresh storage at every nesting level; literal functions and loops are the only operations that evaluate one expression node more than once (stores below a loop's literal are in range or map entries, never at index len)",
@@ -3256,6 +3339,7 @@ func init() {
 					{Name: "fixed", Cases: len(c10Fixed), Chunk: len(c10Fixed), TimeoutS: 300},
 					{Name: "enum", Cases: c10EnumCases(), Chunk: 4, Exhaust: true, TimeoutS: 600},
 					{Name: "random", Cases: nRand, Chunk: 250, TimeoutS: 900},
+					{Name: "conv", Cases: c10ConvCases(), Chunk: 5, TimeoutS: 600, MemMB: 3072, Jobs: 4},
 				},
 			}
 		},
@@ -3265,6 +3349,8 @@ func init() {
 				c10RunFixed(c)
 			case "enum":
 				c10RunEnum(c)
+			case "conv":
+				c10RunConv(c)
 			default:
 				c10RunRandom(c)
 			}
